@@ -3,6 +3,7 @@ package globalfilter
 import (
 	"errors"
 
+	"github.com/megaease/easegress/pkg/context"
 	"github.com/megaease/easegress/pkg/object/pipeline"
 )
 
@@ -45,5 +46,49 @@ func verifC02_GlobalFilterValidate() {
 		verifCover("accepted")
 	} else if !vBeforeBad {
 		verifCover("rejected-for-the-after-flow")
+	}
+}
+
+// verifC02_GlobalFilterHandle: GlobalFilter.Handle hands the main pipeline to
+// HandleWithBeforeAfter (decided by verifC02_BeforeAfter) together with exactly the flows the
+// GlobalFilter has: both, only a before flow, only an after flow, or none (then a plain Handle
+// of the main pipeline is the same thing).
+var (
+	vGotMain, vGotBefore, vGotAfter *pipeline.Pipeline
+	vPlainHandles, vBAHandles       int
+)
+
+func vPipelineHandle(p *pipeline.Pipeline, ctx *context.Context) string {
+	vPlainHandles++
+	vGotMain, vGotBefore, vGotAfter = p, nil, nil
+	return ""
+}
+
+func vPipelineHandleBA(p *pipeline.Pipeline, ctx *context.Context, before, after *pipeline.Pipeline) string {
+	vBAHandles++
+	vGotMain, vGotBefore, vGotAfter = p, before, after
+	return ""
+}
+
+func verifC02_GlobalFilterHandle() {
+	gf := &GlobalFilter{}
+	main, before, after := &pipeline.Pipeline{}, &pipeline.Pipeline{}, &pipeline.Pipeline{}
+	hasBefore, hasAfter := verifBool("hasBeforeFlow"), verifBool("hasAfterFlow")
+	if hasBefore {
+		gf.beforePipeline.Store(before)
+	} else {
+		before = nil
+	}
+	if hasAfter {
+		gf.afterPipeline.Store(after)
+	} else {
+		after = nil
+	}
+	vPlainHandles, vBAHandles = 0, 0
+	gf.Handle(context.New(nil), main)
+	verifAssert(vPlainHandles+vBAHandles == 1 && vGotMain == main, "main-pipeline-handled-exactly-once")
+	verifAssert(vGotBefore == before && vGotAfter == after, "before-and-after-flows-run-around-the-main-flow")
+	if hasBefore != hasAfter {
+		verifCover("only-one-of-the-two-flows")
 	}
 }
